@@ -1713,21 +1713,6 @@ theorem typesKnownList_mem {d : Draft} {xs : List Json} (h : typesKnown.typesKno
     · exact h.1
     · exact ih h.2 x hx
 
-/-- what `numSafe` says about one member -/
-def nsMember (k : Str) (v : Json) : Bool :=
-  if k = ks "multipleOf" ∨ k = ks "divisibleBy" then
-    (match v with | .num (.int m) => decide (0 < m ∧ m ≤ 2 ^ 53) | _ => false)
-  else true
-
-/-- what `typesKnown` says about one member -/
-def tkMember (d : Draft) (k : Str) (v : Json) : Bool :=
-  if k = ks "type" ∨ k = ks "disallow" then
-    (match v with
-     | .str t => (typeNames d).contains t
-     | .arr ts => ts.all (fun t => match t with | .str t => (typeNames d).contains t | _ => true)
-     | _ => true)
-  else true
-
 theorem numSafeKvs_mem {kvs : List (Str × Json)} (h : numSafe.numSafeKvs kvs = true) :
     ∀ k v, (k, v) ∈ kvs → nsMember k v = true ∧ numSafe v = true := by
   induction kvs with
@@ -1776,6 +1761,17 @@ theorem Rest.leaf (d : Draft) (s : Json) (h : s.isArr = false) (h' : s.isObj = f
   | arr _ => simp [Json.isArr] at h
   | obj _ => simp [Json.isObj] at h'
   | _ => exact ⟨rfl, rfl, rfl⟩
+
+/-- the part of `Rest` that the keywords of ONE schema object read: the object is well formed, and
+    its OWN `multipleOf`/`divisibleBy`/`type`/`disallow` members are as `numSafe`/`typesKnown` demand
+    (nothing about members of the same spelling deeper down, e.g. a PROPERTY named `multipleOf`) -/
+structure RestL (d : Draft) (kvs : List (Str × Json)) : Prop where
+  wf : WF (.obj kvs) = true
+  ns_member : ∀ {k : Str} {v : Json}, (k, v) ∈ kvs → nsMember k v = true
+  tk_member : ∀ {k : Str} {v : Json}, (k, v) ∈ kvs → tkMember d k v = true
+
+theorem Rest.local {d : Draft} {kvs : List (Str × Json)} (h : Rest d (.obj kvs)) : RestL d kvs :=
+  ⟨h.wf, fun hx => h.ns_member hx, fun hx => h.tk_member hx⟩
 
 /-! ### string literals of the specification against explicit keys (decoded once) -/
 
@@ -1839,7 +1835,7 @@ structure Ctx (T : Prop) (P : RState → Prop) (d : Draft) (rec : Rec) (sub : Js
   shape : ∀ kv ∈ kvs, shapeClause d shp kv = true
   /-- draft 3: `required` inside a well-shaped property schema is a boolean -/
   req3 : d = .d3 → ∀ pk, shp (.obj pk) = true → ∀ r, lookupJ "required" pk = some r → isBoolV r = true
-  rest : Rest d (.obj kvs)
+  rest : RestL d kvs
   noref : lookupJ "$ref" kvs = none
 
 namespace Ctx
@@ -1860,7 +1856,7 @@ theorem sub_val (C : Ctx T P d rec sub shp kvs) {k : Str} {ps : List (Str × Jso
   C.hval k ps hmem p hp hshp i' hi'
 
 theorem wf_v (C : Ctx T P d rec sub shp kvs) {k : Str} {v : Json} (hmem : (k, v) ∈ kvs) : WF v = true :=
-  (C.rest.obj_mem hmem).wf
+  (WF_obj C.rest.wf).2 (k, v) hmem
 
 /-- the shape of the value found under a key of the schema object -/
 theorem shape_lookup (C : Ctx T P d rec sub shp kvs) {key : String} {v : Json}
@@ -1876,6 +1872,7 @@ theorem tkMember_type (d : Draft) (v : Json) :
        | .arr ts => ts.all (fun t => match t with | .str t => (typeNames d).contains t | _ => true)
        | _ => true) := by
   unfold tkMember; rw [if_pos (Or.inl ks_type.symm)]
+  cases v <;> rfl
 
 theorem tkMember_disallow (d : Draft) (v : Json) :
     tkMember d (k!"disallow") v =
@@ -1884,16 +1881,23 @@ theorem tkMember_disallow (d : Draft) (v : Json) :
        | .arr ts => ts.all (fun t => match t with | .str t => (typeNames d).contains t | _ => true)
        | _ => true) := by
   unfold tkMember; rw [if_pos (Or.inr ks_disallow.symm)]
+  cases v <;> rfl
 
 theorem nsMember_multipleOf (v : Json) :
     nsMember (k!"multipleOf") v
       = (match v with | .num (.int m) => decide (0 < m ∧ m ≤ 2 ^ 53) | _ => false) := by
   unfold nsMember; rw [if_pos (Or.inl ks_multipleOf.symm)]
+  cases v with
+  | num n => cases n <;> rfl
+  | _ => rfl
 
 theorem nsMember_divisibleBy (v : Json) :
     nsMember (k!"divisibleBy") v
       = (match v with | .num (.int m) => decide (0 < m ∧ m ≤ 2 ^ 53) | _ => false) := by
   unfold nsMember; rw [if_pos (Or.inr ks_divisibleBy.symm)]
+  cases v with
+  | num n => cases n <;> rfl
+  | _ => rfl
 
 section Keys
 variable {env : Env} {impl : FmtImpl} {d : Draft} {rec : Rec} {sub : Json → Json → Bool}
@@ -3087,7 +3091,7 @@ theorem eval_vd (env : Env) (hre : RegexTotal env) (hurl : UrlTotal env) (hset :
           hbool := ?_
           shape := hsh
           req3 := ?_
-          rest := hrest
+          rest := hrest.local
           noref := hnoref }
       · -- the schemas synthesised by `disallow`
         intro hd dv hmem ts hts t ht i' hi'
@@ -3136,7 +3140,7 @@ theorem eval_vd (env : Env) (hre : RegexTotal env) (hurl : UrlTotal env) (hset :
             hbool := fun _ _ _ h => by rcases h with h | h <;> cases h
             shape := fun kv hkv => ?_
             req3 := ?_
-            rest := ?_
+            rest := Rest.local ?_
             noref := rfl }
         · obtain ⟨_, rfl⟩ := hmem1 hm; cases m' <;> cases hs'
         · obtain ⟨_, h2⟩ := hmem1 hm
